@@ -406,7 +406,7 @@ Proof.
     assert (Hkl : (slot cfg (next (mt s)) < length (jobs s))%nat) by (rewrite (k_len _ _ K); apply slot_lt).
     inv_some H. eapply sinv_post; [exact K|exact S|exact Hlt|..]; try reflexivity.
     + intros k Hk. rewrite getj_set_cpc, getj_set_mt. rewrite getj_set_job_neq by auto. reflexivity.
-    + rewrite getj_set_cpc, getj_set_mt. rewrite getj_set_job_eq by exact Hkl. destruct (_ || _); cbn; auto. intros _. congruence.
+    + rewrite getj_set_cpc, getj_set_mt. rewrite getj_set_job_eq by exact Hkl. destruct (negb _); cbn; auto. intros _. congruence.
     + intros t x Hx _. exact Hx.
   - (* CTryAdd *)
     pose proof (PA eq_refl) as ((Hlt & Hid & Hc0 & Hcs & Her) & Hck & Hdn & Hle).
